@@ -126,7 +126,8 @@ class ForwardSDE(BaseSDE):
     # Computes: g_prod and sum_{j, l} d g_{i, l} / d x_j g_{j, l} v2_l.
     def g_prod_and_gdg_prod_default(self, t, y, v1, v2):
         requires_grad = torch.is_grad_enabled()
-        with torch.enable_grad():
+        with misc.enable_grad():
+            t, y, v2 = misc.normal_tensors(t, y, v2)
             y = y if y.requires_grad else y.detach().requires_grad_(True)
             g = self.g(t, y)
             # The Milstein term contracts the Jacobian of each column of g with that column along the *input* index
@@ -147,7 +148,8 @@ class ForwardSDE(BaseSDE):
 
     def g_prod_and_gdg_prod_diagonal(self, t, y, v1, v2):
         requires_grad = torch.is_grad_enabled()
-        with torch.enable_grad():
+        with misc.enable_grad():
+            t, y, v2 = misc.normal_tensors(t, y, v2)
             y = y if y.requires_grad else y.detach().requires_grad_(True)
             g = self.g(t, y)
             vg_dg_vjp, = misc.vjp(
@@ -170,7 +172,8 @@ class ForwardSDE(BaseSDE):
     # Computes: sum_{j,k,l} d g_{i,l} / d x_j g_{j,k} A_{k,l}.
     def dg_ga_jvp_column_sum_v1(self, t, y, a):
         requires_grad = torch.is_grad_enabled()
-        with torch.enable_grad():
+        with misc.enable_grad():
+            t, y, a = misc.normal_tensors(t, y, a)
             y = y if y.requires_grad else y.detach().requires_grad_(True)
             g = self.g(t, y)
             ga = torch.bmm(g, a)
@@ -191,7 +194,8 @@ class ForwardSDE(BaseSDE):
     def dg_ga_jvp_column_sum_v2(self, t, y, a):
         # Faster, but more memory intensive.
         requires_grad = torch.is_grad_enabled()
-        with torch.enable_grad():
+        with misc.enable_grad():
+            t, y, a = misc.normal_tensors(t, y, a)
             y = y if y.requires_grad else y.detach().requires_grad_(True)
             g = self.g(t, y)
             ga = torch.bmm(g, a)
